@@ -3,6 +3,7 @@
 import json, os
 HOOK_COMMITS = [l.split()[0] for l in os.popen("git -C /repo log --format='%h %s' | grep 'verif hook'").read().splitlines()]
 ENGINES = [
+ {"name":"CONSNET","path":"consnet/","serves_properties":[],"kind_free_text":"N real pbft.ConsensusState machines (real Start, receiveRoutine, WAL, signer files, block store) driven one input at a time through a build-tagged rendez-vous gate by a harness that is the network, the timers and the disk (crash points); deviation-bounded enumeration of rule subsets; monitors = property oracles; worker subprocess pool"},
  {"name":"XSTATE","path":"props/*/ (drivers) + core/","serves_properties":[],"kind_free_text":"explicit enumeration of operation histories / input grids on the real objects against a reference model written in Go; every case executed on the implementation"},
 ]
 # id -> (engine, category, technique, text, note, design_ref, has_thorough)
@@ -13,6 +14,17 @@ def chk(id, engine, cat, technique, text, note, thorough=True):
 chk("C17","XSTATE","model_checking","exhaustive small-scope enumeration on the real PartSet / simple Merkle tree against a bit-identity reference",
     "Every (data length 0..40, part size 1..9) pair, every arrival permutation with a duplicate (totals<=5), every single-field mutant of every part in three receiver pre-states, and every (index,total) in [-2,19]^2 for every proof of every tree of 1..17 leaves is executed on the real code; accept iff genuine, rejected parts leave the set unchanged, reassembly is byte-exact.",
     "Hash collision resistance; bounds len<=40, part size<=9, 17 leaves; larger blocks are not explored.")
+
+CN_NOTE = "4 validators (also 3 and weighted sets in thorough), one Byzantine, 2 heights, rules name rounds 0-1 of height 1; deviation bound 2 (quick) / 3 (thorough, budget-capped: the evidence reports what was completed). Byzantine validators sign only with their own key. Toy application behind the real hook interface; the harness is the network (message stays deliverable; honest relay, maj23 claims and block catch-up in the fair suffix)."
+chk("C01","CONSNET","model_checking","deviation-bounded exhaustive exploration of 4 real ConsensusState machines under a harness-owned network; agreement/linearity invariant after every step",
+    "Every compatible subset of <= d rules from a menu of network, timer, Byzantine and crash deviations is executed on the real pbft state machines (real Start/receiveRoutine/WAL/signer files, stepped one input at a time through a build-tagged gate); after every step all honest stores are compared (same block per height, each block names its stored predecessor).", CN_NOTE)
+chk("C04","CONSNET","model_checking","same CONSNET executions; proof-of-lock monitor on every vote/proposal an honest node emits against the ledger of what was delivered to it",
+    "For every message an honest state machine emits the monitor checks, against the votes the harness had handed to that node before: no prevote against a lock without a later polka for something else, precommit only with +2/3 prevotes of that round received, proposer re-proposes its locked block, commit only on +2/3 precommits of one round.", CN_NOTE)
+chk("C12","CONSNET","model_checking","same CONSNET executions continued with the fair suffix (all rules expire, everything pending is delivered, timeouts fire only at quiescence); step-bound termination, no wall clock",
+    "Every explored adversarial prefix (<= d rules incl. Byzantine actions) is followed by a fair suffix; every honest node must store the target height within the step bound; a state with no enabled event before that, or a panic of a node goroutine, is a violation.", CN_NOTE+" Real-time tickers and the gossip routines' own scheduling are not explored (timers are events).")
+chk("C07","CONSNET","fault_enumeration","crash before every durable write of every honest node in several base executions; restart through the real Start()/catchupReplay; replay-equivalence against the uncrashed reference run",
+    "Each durable write (WAL record, signer-file step, block-store and state write) of each honest node in happy / two-round / lock-then-commit executions is a crash point; after the real restart the round state must equal the reference state after the last completely logged input, no signature may contradict an earlier one, nobody may panic, and all nodes must finish with equal blocks; thorough adds torn WAL tails and rotation at every record boundary.",
+    "Crash model = process death between system calls (no torn writes except the explicit torn-tail cases). Non-light WAL. Harness restores the correct cached proposer after a reload (known finding) so that later differences stay visible.")
 
 NOT_YET = "check not built yet in this round (planned in DESIGN.md §5); not claimed until its quick check passes on the unchanged tree"
 props=[json.loads(l)['id'] for l in open('/verif/properties.jsonl')]
